@@ -352,16 +352,16 @@ def udXml : Option (List (String × String)) → List Elem
   | some [] => if xmlUdSkipsEmpty then [] else [.node "userDefinedParameters" []]
   | some kvs => [.node "userDefinedParameters" (kvs.map udLeaf)]
 
+def kepXml (ks : List Txt) : Elem :=
+  .node "keplerianElements" ((kepKeys.zip ks).map fun ((k, u), v) => Elem.leaf k (unitAttrib u) v)
+
 /-- `opm._dumps_xml` -/
 def opmXml (m : Opm) : R Elem := do
   let (center, rframe) ← frameOut m.frame
   pure <| .node "opm" [headerXml, .node "body" [.node "segment" [
     metaXml m.name m.id center rframe m.scale [],
     .node "data" ([svXml m.epoch m.state] ++
-      (match m.kep with
-       | some ks => [Elem.node "keplerianElements" ((kepKeys.zip ks).map fun ((k, u), v) => Elem.leaf k (unitAttrib u) v)]
-       | none => []) ++
-      (match m.cov with | some c => [covXml none c] | none => []) ++
+      m.kep.toList.map kepXml ++ m.cov.toList.map (covXml none) ++
       m.mans.map (manXml m.frame) ++ udXml m.ud)]]]
 
 /-- the centre rule of the readers; only the Earth-centred branch is modelled -/
@@ -461,12 +461,9 @@ def xmlUd (wrap : Bool) (dt : Dict) : R (Option (List (String × String))) := do
       let kvs ← fields.mapM readUdField
       pure (if kvs.isEmpty then none else some kvs)
 
-/-- `opm._loads_xml` on the dict built by `xml2dict` -/
-def opmFromXmlDict (data : Dict) : R Opm := do
-  let (md, dt) ← segPath data
-  let sv ← asDict (← getItem dt "stateVector")
-  let mansV := dt.lookup "maneuverParameters"
-  let (name, id, scale, frame, epoch, state) ← keyErrToCcsds (do
+/-- the mandatory block of `opm._loads_xml` (inside `try … except KeyError`) -/
+def opmHeadFromXml (md sv : Dict) : R (String × String × String × String × Txt × List Txt) :=
+  keyErrToCcsds (do
     let name ← strOf md "OBJECT_NAME"
     let id ← strOf md "OBJECT_ID"
     let scale ← strOf md "TIME_SYSTEM"
@@ -475,13 +472,27 @@ def opmFromXmlDict (data : Dict) : R Opm := do
     let frame ← centreRule center frame
     let (epoch, state) ← loadSv sv
     pure (name, id, scale, frame, epoch, state))
-  let raws ← match mansV with
+
+/-- the maneuver loop of `opm._loads_xml` -/
+def opmMansFromXml (frame : String) (dt : Dict) : R (List Man) := do
+  let raws ← match dt.lookup "maneuverParameters" with
     | some v => iterGroup wrapOpmManeuver .typeError v >>= fun xs => xs.mapM asDict
     | none => pure []
-  let mans ← raws.mapM (loadMan frame)
-  let cov ← match dt.lookup "covarianceMatrix" with
-    | some v => do let c ← asDict v; some <$> loadCov frame c
-    | none => pure none
+  raws.mapM (loadMan frame)
+
+/-- `if cov: orb.cov = load_cov(orb, cov)` of the OPM / OMM XML readers -/
+def covFromXml (frame : String) (dt : Dict) : R (Option CovM) :=
+  match dt.lookup "covarianceMatrix" with
+  | some v => do let c ← asDict v; some <$> loadCov frame c
+  | none => pure none
+
+/-- `opm._loads_xml` on the dict built by `xml2dict` -/
+def opmFromXmlDict (data : Dict) : R Opm := do
+  let (md, dt) ← segPath data
+  let sv ← asDict (← getItem dt "stateVector")
+  let (name, id, scale, frame, epoch, state) ← opmHeadFromXml md sv
+  let mans ← opmMansFromXml frame dt
+  let cov ← covFromXml frame dt
   let ud ← xmlUd wrapOpmUd dt
   pure { name := name, id := id, frame := frame, scale := scale, epoch := epoch, state := state, kep := none,
          cov := cov, mans := mans, ud := ud }
@@ -574,9 +585,7 @@ def ommFromXmlDict (data : Dict) : R Omm := do
   let me ← asDict (← getItem dt "meanElements")
   let tp ← asDict (← getItem dt "tleParameters")
   let (name, id, scale, frame, epoch, elems, tle) ← loadOmmCore md me tp
-  let cov ← match dt.lookup "covarianceMatrix" with
-    | some v => do let c ← asDict v; some <$> loadCov frame c
-    | none => pure none
+  let cov ← covFromXml frame dt
   let ud ← xmlUd wrapOmmUd dt
   pure { name := name, id := id, frame := frame, scale := scale, epoch := epoch, elems := elems, tle := tle,
          cov := cov, ud := ud, hasTle := false }
